@@ -49,9 +49,18 @@ func (r *xferRT) RoundTrip(req *http.Request) (*http.Response, error) {
 		return nil, errors.New("injected transport error")
 	}
 
-	if r.mode == "hash" {
+	if r.mode == "hash" || r.mode == "noname" || r.mode == "nohash" {
 		q := req.URL.Query()
-		q.Set("typesHash", q.Get("typesHash")+"7")
+
+		switch r.mode {
+		case "hash":
+			q.Set("typesHash", q.Get("typesHash")+"7")
+		case "noname":
+			q.Del("name")
+		case "nohash":
+			q.Del("typesHash")
+		}
+
 		req.URL.RawQuery = q.Encode()
 	}
 
@@ -144,6 +153,9 @@ func TestTransferReplay(t *testing.T) {
 		mustNoErr(err, "keymap")
 
 		expT, impT := &cache.HTTPTransfer{}, &cache.HTTPTransfer{}
+		if bi%2 == 0 {
+			expT.Logger, impT.Logger = sinkLogger{}, sinkLogger{}
+		}
 		expC, impC := map[string]Backend{}, map[string]Backend{}
 
 		for _, n := range cfg.ExpNames {
